@@ -602,6 +602,7 @@ func TestPropSuperfluid(t *testing.T) {
 					rt.Skip("no such validator")
 				}
 				cons, _ := v.GetConsAddr()
+				applyNow := rapid.Bool().Draw(rt, "validatorSetUpdateNow")
 				err = c.Try(func(ctx sdk.Context) error {
 					if v.IsJailed() {
 						if err := sk.Unjail(ctx, cons); err != nil {
@@ -612,8 +613,14 @@ func TestPropSuperfluid(t *testing.T) {
 							return err
 						}
 					}
-					// (the validator keeps its bonded status: the staking end blocker, which would move it to unbonding, is not
-					// run - the test helper's validators are not backed by the bonded pool in the way it expects)
+					// in half of the cases the staking end blocker's validator-set update follows at once (a jailed validator
+					// starts unbonding and its tokens move to the not-bonded pool, an unjailed one returns to the bonded set);
+					// otherwise the validator keeps its status for now, as it does until the end of the block
+					if applyNow {
+						if _, err := sk.BlockValidatorUpdates(ctx); err != nil {
+							return err
+						}
+					}
 					return nil
 				})
 				if err != nil {
@@ -621,6 +628,9 @@ func TestPropSuperfluid(t *testing.T) {
 					return
 				}
 				cs.Class("validator-jailed-or-unjailed")
+				if applyNow {
+					cs.Class("validator-set-updated-after-jailing")
+				}
 				hist = append(hist, fmt.Sprintf("JAIL/UNJAIL %s (was jailed=%v)", val[len(val)-4:], v.IsJailed()))
 			},
 			"time": func(rt *rapid.T) {
